@@ -23,7 +23,7 @@ Print Assumptions C12_utf32_stops_at_nul.
 
 (* on canonical text the consumed characters and their code-unit offsets are exactly the text's, whatever
    lies after the terminator and however large nChars is *)
-Theorem C12_utf8_exact : forall us n pos rest, Forall (fun u => u < 0x110000 /\ u <> 0) us ->
+Theorem C12_utf8_exact : forall us n pos rest, Forall (fun u => (u < 0x110000 /\ ~ (0xD800 <= u <= 0xDFFF)) /\ u <> 0) us ->
   read_text get8 n (enc_all put8 us ++ 0 :: rest) pos = Some (firstn n (combine us (bases put8 pos us))).
 Proof. exact (read_text_exact get8 put8 valid8 get8_nul_zero get8_put8). Qed.
 Print Assumptions C12_utf8_exact.
@@ -33,7 +33,7 @@ Theorem C12_utf16_exact : forall us n pos rest, Forall (fun u => valid16 u /\ u 
 Proof. exact (read_text_exact get16 put16 valid16 get16_nul_zero get16_put16). Qed.
 Print Assumptions C12_utf16_exact.
 
-Theorem C12_utf32_exact : forall us n pos rest, Forall (fun u => u < 0x110000 /\ u <> 0) us ->
+Theorem C12_utf32_exact : forall us n pos rest, Forall (fun u => (u < 0x110000 /\ ~ (0xD800 <= u <= 0xDFFF)) /\ u <> 0) us ->
   read_text get32 n (enc_all put32 us ++ 0 :: rest) pos = Some (firstn n (combine us (bases put32 pos us))).
 Proof. exact (read_text_exact get32 put32 valid32 get32_nul_zero get32_put32). Qed.
 Print Assumptions C12_utf32_exact.
